@@ -29,8 +29,8 @@ type Case struct {
 }
 
 var (
-	one   = big.NewInt(1)
-	two64 = new(big.Int).Lsh(one, 64)
+	one    = big.NewInt(1)
+	two64  = new(big.Int).Lsh(one, 64)
 	two128 = new(big.Int).Lsh(one, 128)
 )
 
